@@ -6,7 +6,7 @@
 From stdpp Require Import gmap list.
 From Coq Require Import NArith ZArith Lia.
 From VFS Require Import Core.Types Core.Prog Core.Calls Base.MemFS Base.Handles Base.Store Layer.VfsPath Layer.Overlay
-  Proofs.MemProofs Proofs.MemCalls Proofs.ConcProofs Proofs.OvlProofs Proofs.OvlConc.
+  Proofs.MemProofs Proofs.MemCalls Proofs.ConcProofs Proofs.OvlProofs Proofs.CallsOk Proofs.OvlConc.
 
 Notation mstate := (gmap (list (list N)) memfile).
 
@@ -84,6 +84,12 @@ Theorem C17_overlay_all_succeed :
       r = Ok tt /\ Forall (visible s0' s1) (prefixes P).
 Proof. exact ovl_create_dir_all_concurrent. Qed.
 
+(** the scheduling step: every call such a thread can issue, whatever the replies, is a trait call of
+    one of the two MemoryFS layers - and each of those is one lock section (C16_one_section_per_call) *)
+Theorem C17_overlay_steps_are_layer_calls : forall P : list (list N),
+  calls_ok (fun b => match b with BFs i _ => i < 2 | BH _ _ => True | BLog _ _ => False end) (vp_create_dir_all ovl P).
+Proof. exact cda_calls. Qed.
+
 (** "visible" is what the caller observes: exists through the overlay answers true *)
 Theorem C17_visible_is_exists : forall (hs : list hstate) (lg : list (nat * fscall)) (ft : option (nat * nat))
     (s0 s1 : mstate) (q : list (list N)),
@@ -149,3 +155,4 @@ Print Assumptions C17_overlay_example.
 Print Assumptions C17_overlay_hypotheses.
 Print Assumptions C17_altroot_all_succeed.
 Print Assumptions C17_visible_is_exists.
+Print Assumptions C17_overlay_steps_are_layer_calls.
